@@ -760,6 +760,16 @@ def oracle_c16(res, lf=None):
     return {'failures': fails, 'distinct': distinct, 'samples': samples, 'stats': {}}
 
 
+RULES['gen'] = ('random .proto file sets (proto2/proto3; nesting; a second imported file in another package; c_package; enums with negative / '
+                'sparse / extreme / aliased values in random declaration order; all field types and labels; oneofs; defaults; keyword and '
+                'mixed-case field names; services; every protobuf-c file / message / field option; optimize_for) -> protoc + the protoc-gen-c '
+                'built from /repo, twice -> gcc (ASan/UBSan harness on the generated code, -std=c99 on the sources), g++ -std=c++17 on the '
+                'headers, offsetof/type/enum-constant probe.  Compared: dumps of every generated message / enum / service descriptor, of the '
+                'static INIT objects, init functions and unpack(empty), stub dispatch, helper declarations, and pack / round trip / accept / '
+                'check of random messages ON THE GENERATED CODE, against the Lean generator + runtime model; plus direct oracles per property '
+                '(declared defaults, declared numbers/names/order, literal dispatch index, option-driven API) computed from the .proto alone.')
+
+
 def oracle_c17(res, lf=None):
     samples = []
     for i, l, out in iter_ops(res, lf):
